@@ -741,8 +741,16 @@ def plan_meta(w: World, op: dict) -> Plan:
         if not values:
             return Plan(EXCLUDED, why="empty update")
         replace = bool(op.get("replace", False))
+        shared = op.get("shared")
 
         def call():
+            if shared:
+                # the caller keeps (and re-uses) its dict: nutree must not alias it
+                d = w.shared_dicts.get(shared)
+                if d is None or d[1] != values:
+                    d = (dict(values), dict(values))
+                    w.shared_dicts[shared] = d
+                return rn.update_meta(d[0], replace=replace)
             return rn.update_meta(dict(values), replace=replace)
 
         def apply():
